@@ -16,15 +16,15 @@ CHECKS = {
 
 PROGFAM_NOTE = "Trusts the reference interpreter (interp.rs), the harness's own bit encoder/decoder and printer location rules (DESIGN.md Appendix A; token positions are the real scanner's). Small scope: programs beyond the stated node/statement/site bounds are outside the claim."
 CHECKS["C01"] = ("exploration",
-  "bounded exhaustive enumeration of programs (families E, S, P) x inputs x 4 configurations on the real compiler+evaluator vs. a reference interpreter",
-  "Every program of three small grammars up to a size bound (expression nests with k operator nodes; sequences of n statement templates over 7 mutable variables; sequences of n wrapped failing sites) is compiled by the real compiler in all four configurations (SSA/register x dedup on/off) and evaluated by the real evaluator on every input of its input set (all 2^16 operand pairs for the smallest nests, boundary products otherwise); the decoded result must equal the reference interpreter's value with the panic flag clear.",
+  "bounded exhaustive enumeration of programs (families E, S, T, P, X; family I suffix subsets) x inputs x 4 configurations on the real compiler+evaluator vs. a reference interpreter",
+  "Every program of five small grammars up to a size bound (expression nests with k operator nodes; sequences of n statement templates over 7 mutable variables; nested accessor / enum programs; sequences of n wrapped failing sites; effect blocks - blocks that assign and/or fail before yielding a value - in every expression position incl. value-independent and degenerate ones) is compiled by the real compiler in all four configurations (SSA/register x dedup on/off) and evaluated by the real evaluator on every input of its input set (all 2^16 operand pairs for the smallest nests, boundary products otherwise); the decoded result must equal the reference interpreter's value with the panic flag clear.",
   PROGFAM_NOTE, "DESIGN.md §4 C01")
 CHECKS["C02"] = ("exploration",
-  "bounded exhaustive enumeration of arrangements of failing operations (family P: site x wrapper sequences incl. repeats and constant-foldable sites; plus families S, E) x boundary inputs vs. reference interpreter (panic iff, reason, location of first failure)",
+  "bounded exhaustive enumeration of arrangements of failing operations (family P: site x wrapper sequences incl. repeats and constant-foldable sites; family X: failing effect blocks in every expression position incl. positions whose value does not depend on them; plus families S, T, E) x boundary inputs vs. reference interpreter (panic iff, reason, location of first failure)",
   "For every enumerated program and input the circuit's panic flag, reason and decoded source location are compared with the first failing operation of the reference interpreter; untaken branches/arms/short-circuited operands/non-joined iterations must stay silent. The input products switch every site's failure condition on and off independently.",
   PROGFAM_NOTE + " Where an out-of-range index and a failing assigned value coincide in one assignment, either panic is accepted; MIN % -1 accepts both outcomes.", "DESIGN.md §4 C02")
 CHECKS["C14"] = ("exploration",
-  "bounded exhaustive enumeration of mutation-heavy statement sequences (family S) x boundary inputs x 4 configurations vs. reference interpreter, observing all variables",
+  "bounded exhaustive enumeration of mutation-heavy statement sequences (families S, T) and of effect blocks in every expression position (family X) x boundary inputs x 4 configurations vs. reference interpreter, observing all variables",
   "Every sequence of up to n statement templates (assignment / op-assignment through nested accessors with constant and input-dependent indices, aggregate copies followed by mutation of either side, shadowing, calls mutating their by-value parameter, loops, branches, arms, for-join) is compiled and evaluated; the program returns the tuple of all variables, so any aliasing, wrongly merged branch or lost update changes the output.",
   PROGFAM_NOTE, "DESIGN.md §4 C14")
 
@@ -86,8 +86,8 @@ CHECKS["C11"] = ("exploration",
   "Circuits with more than 10 input bits are compared on a boundary input set.", "DESIGN.md §4 C11")
 
 CHECKS["C06"] = ("model_checking",
-  "deviation-bounded exhaustive exploration of hash-map iteration orders (environment answers owned by the harness through hook H2) on the real check + compile; bound 1 over all permutations of small maps, bound 2 over reversal/rotation pairs",
-  "Hash seeds cannot be enumerated, but everything a seed can influence is the order in which each map in each state is iterated. Hook H2 makes that order an environment answer: every (map identity, generation) that is iterated with >= 2 entries is a choice point. For every subject program the default run is recorded (and must reproduce exactly), then every single choice point is deviated with every permutation (<= 4 entries; reversal and rotations beyond) and pairs of choice points with reversal/rotation; the circuit (party sizes, gate list, output wires), the verdict and the set of errors must equal the default run's.",
+  "deviation-bounded exhaustive exploration of hash-map iteration orders (environment answers owned by the harness through hook H2) on the real check + compile; bound 1 over all permutations of small maps, bound 2 over reversal/rotation pairs; plus exhaustive ordered pairs / triples of compilations (histories) in one thread of a fresh process",
+  "Hash seeds cannot be enumerated, but everything a seed can influence is the order in which each map in each state is iterated. Hook H2 makes that order an environment answer: every (map identity, generation) that is iterated with >= 2 entries is a choice point. For every subject program the default run is recorded (and must reproduce exactly), then every single choice point is deviated with every permutation (<= 4 entries; reversal and rotations beyond) and pairs of choice points with reversal/rotation; the circuit (party sizes, gate list, output wires), the verdict and the set of errors must equal the default run's. The default run is repeated five times (a map outside the hook's control shows as irreproducibility). 'How often / in which process': every ordered pair (thorough: triple) of 14 programs that share struct / enum / fn / const names with different definitions or constant values is compiled in sequence in one thread of a fresh process; each compilation must equal the same program's result as the first compilation of a fresh process.",
   "Over-approximates seeds (different maps and states are independent, as with std); a permutation of one map's entries is assumed realisable by some seed. Subjects are a fixed set of programs built to carry order-sensitive state (several constants/parties, structs, enums, functions, panic conditions shared by branches) plus examples and generated programs.", "DESIGN.md §4 C06")
 
 NOT_YET = {
